@@ -94,7 +94,8 @@ UE(e, L) ==
                             operand == IF e.e.k \in bare THEN UE(e.e, L) ELSE Paren(UE(e.e, L))
                         IN IF e.op = "not" THEN <<W("not"), W(" ")>> \o operand ELSE <<W(e.op)>> \o operand
       [] e.k = "cond" -> UAtomish(e.c, L) \o Sp(L) \o <<W("?")>> \o Sp(L) \o UAtomish(e.a, L)
-                         \o Sp(L) \o <<W(":")>> \o Sp(L) \o UAtomish(e.b, L)
+                         \* (a conditional in the false branch needs no parentheses: a ? b : c ? d : e groups to the right)
+                         \o Sp(L) \o <<W(":")>> \o Sp(L) \o (IF L.par = "min" /\ e.b.k = "cond" THEN UE(e.b, L) ELSE UAtomish(e.b, L))
       [] e.k = "spy" -> <<W(e.fn), W("("), W("'"), W(e.id), W("'"), W(",")>> \o Sep(L) \o UE(e.e, L) \o <<W(")")>>
       [] e.k = "filt" -> UPostfixBase(e.e, L) \o <<W("|"), W(e.f)>> \o
                          (IF e.args = <<>> THEN <<>> ELSE <<W("(")>> \o UEList(e.args, L) \o <<W(")")>>)
@@ -134,6 +135,7 @@ US(s, L) ==
       [] s.k = "print" -> <<VO, W(" ")>> \o UE(s.e, L) \o <<W(" "), VC>>
       \* (written as plain pieces: the dashes of C13 are those of print and block tags)
       [] s.k = "comment" -> <<W("{#"), C(s.c), W("#}")>>
+      [] s.k = "raw" -> s.ps
       [] s.k = "verbatim" -> Tag(<<W("verbatim")>>) \o <<C(s.c)>> \o Tag(<<W("endverbatim")>>)
       [] s.k = "do" -> Tag(<<W("do"), W(" ")>> \o UE(s.e, L))
       [] s.k = "set" -> Tag(<<W("set"), W(" "), W(s.n), W(" "), W("="), W(" ")>> \o UE(s.e, L))
